@@ -46,7 +46,9 @@ Definition m_comment : list iop :=
   [OPte; OIndent; OChar 60; OChar 33; OChar 45; OChar 45; OData; OChar 45; OChar 45; OChar 62; OSetStartNewLine true].
 Definition m_writeProcessingInstruction : list iop := [OPte; OIndent; OChar 60; OChar 63; OName; OChar 32; OData; OChar 63; OChar 62].
 Definition m_writeCharacters : list iop := [OPte; OSetPreserve true; OContent; OElse; OElse; OContent; OSetPrevText true].
-Definition m_writeCDATA : list iop := [OPte; OSetPreserve true; OIndent; OCdataChars].
+(* fx: the repaired writeCDATA also calls setPrevText(true) (GenOutopt.cdata_sets_prevtext says which one /repo has) *)
+Definition m_writeCDATA (fx : bool) : list iop :=
+  [OPte; OSetPreserve true; OIndent; OCdataChars] ++ (if fx then [OSetPrevText true] else []).
 Definition m_writeParentTagEnd : list iop := [OIfMarkParent; OChar 62; OSetPrevText false; OPushPreserve].
 Definition m_charactersRaw : list iop := [OPte; OSetPreserve true; ORawChars].
 
@@ -86,7 +88,7 @@ Definition pte (st : ist) (es : list bool) : list tok * ist * list bool :=
 (* state: indent writer, m_elemStack, m_needToOutputDoctypeDecl *)
 Definition fstate : Type := (ist * list bool * bool)%type.
 
-Definition step (ind : option N) (e : event) (s : fstate) : list tok * fstate :=
+Definition step (fx : bool) (ind : option N) (e : event) (s : fstate) : list tok * fstate :=
   let '(st, es, dt) := s in
   match e with
   | EStart name attrs =>
@@ -112,7 +114,7 @@ Definition step (ind : option N) (e : event) (s : fstate) : list tok * fstate :=
       | [] => ([], s)
       | _ => let '(p, st1, es1) := pte st es in
              let st2 := set_presv true st1 in
-             (p ++ indent_toks ind st2 ++ [KCdata t], (st2, es1, dt))
+             (p ++ indent_toks ind st2 ++ [KCdata t], ((if fx then set_prevt true st2 else st2), es1, dt))
       end
   | EComment t =>
       let '(p, st1, es1) := pte st es in
@@ -122,10 +124,10 @@ Definition step (ind : option N) (e : event) (s : fstate) : list tok * fstate :=
       (p ++ indent_toks ind st1 ++ [KPI t d], (st1, es1, dt))
   end.
 
-Fixpoint run_events (ind : option N) (evs : list event) (s : fstate) : list tok :=
+Fixpoint run_events (fx : bool) (ind : option N) (evs : list event) (s : fstate) : list tok :=
   match evs with
   | [] => let '(st, _, _) := s in indent_toks ind (set_snl true st)       (* endDocument *)
-  | e :: r => let '(t, s1) := step ind e s in t ++ run_events ind r s1
+  | e :: r => let '(t, s1) := step fx ind e s in t ++ run_events fx ind r s1
   end.
 
 (* ---- 2. rendering -------------------------------------------------------------------------------- *)
@@ -189,7 +191,7 @@ Definition header_items (F : fam) (c : xcfg) : list item :=
   else [].
 
 Definition doc_tokens (c : xcfg) (evs : list event) : list tok :=
-  run_events (x_indent c) evs (ist0, [], need_doctype c).
+  run_events cdata_sets_prevtext (x_indent c) evs (ist0, [], need_doctype c).
 
 Definition serialize_opt (c : xcfg) (evs : list event) : res (list N) :=
   let F := fam_of (x_enc c) in
@@ -264,19 +266,19 @@ Inductive iso_ins : bool -> list pev -> list pev -> Prop :=
 (* the exact guard of indent_adds_only_ws: pt mirrors m_isprevtext, lt = "the last node written is character
    data"; a start tag after a CDATA section (written by cdata(), which does not set m_isprevtext) is the case in
    which the code indents next to text *)
-Fixpoint ind_guard (pt lt : bool) (evs : list event) : bool :=
+Fixpoint ind_guard (fx : bool) (pt lt : bool) (evs : list event) : bool :=
   match evs with
   | [] => true
   | e :: r =>
       match e with
-      | EStart _ _ => negb (lt && negb pt) && ind_guard false false r
-      | EEnd _ => ind_guard false false r
-      | EText [] => ind_guard pt lt r
-      | ECdata [] => ind_guard pt lt r
-      | EText _ => ind_guard true true r
-      | ECdata _ => ind_guard pt true r
-      | EComment _ => ind_guard pt false r
-      | EPI _ _ => ind_guard pt false r
+      | EStart _ _ => negb (lt && negb pt) && ind_guard fx false false r
+      | EEnd _ => ind_guard fx false false r
+      | EText [] => ind_guard fx pt lt r
+      | ECdata [] => ind_guard fx pt lt r
+      | EText _ => ind_guard fx true true r
+      | ECdata _ => ind_guard fx (pt || fx) true r
+      | EComment _ => ind_guard fx pt false r
+      | EPI _ _ => ind_guard fx pt false r
       end
   end.
 
